@@ -2,10 +2,12 @@
 //verif:replace (*github.com/celestiaorg/celestia-node/store.Store).HasByHeight github.com/celestiaorg/celestia-node/store.verifHasByHeight
 //verif:replace (*github.com/celestiaorg/celestia-node/store.Store).PutODSQ4 github.com/celestiaorg/celestia-node/store.verifPutODSQ4
 //verif:replace (*github.com/celestiaorg/celestia-node/store.Store).PutODS github.com/celestiaorg/celestia-node/store.verifPutODS
+//verif:replace (*github.com/celestiaorg/celestia-node/store.Store).HasByHash github.com/celestiaorg/celestia-node/store.verifHasByHash
 //verif:assume the EDS store is a recording model (height -> roots, square, with/without parity quadrant; lookups and puts may fail): that the real store keeps and serves what it is given is C05/C07
 package store
 
 import (
+	"bytes"
 	"context"
 	"errors"
 
@@ -48,6 +50,20 @@ func verifHasByHeight(s *Store, ctx context.Context, h uint64) (bool, error) {
 		return false, errors.New("store: lookup failed")
 	}
 	return VerifStored(h) != nil, nil
+}
+
+// a data hash is known to the store when some height holds a square with it
+func verifHasByHash(s *Store, ctx context.Context, hash share.DataHash) (bool, error) {
+	if VerifFailHas {
+		VerifHasFailed++
+		return false, errors.New("store: lookup failed")
+	}
+	for i := range VerifPuts {
+		if bytes.Equal(VerifPuts[i].Roots.Hash(), hash) {
+			return true, nil
+		}
+	}
+	return false, nil
 }
 
 func verifPut(roots *share.AxisRoots, h uint64, sq *rsmt2d.ExtendedDataSquare, q4 bool) error {
